@@ -12,6 +12,12 @@
 //!   again           as sync, then a trivial eval, run_jobs, run_jobs once more (must be no-ops)
 //!   multi           the pieces between `//#CUT` lines evaluated as separate scripts, then one run_jobs
 //!   flags: +loop=<n>  set the loop-iteration limit (a job that exceeds it fails with an engine error)
+//!   jloop:<n>:<bump>:<m>   no JavaScript: the third field is a behaviour table of *native* jobs (see `LoopSpec`);
+//!                   promise / generic / timeout jobs are enqueued on SimpleJobExecutor under a FixedClock and
+//!                   run_jobs_async is polled at most n times; if it is still Pending the host moves the clock
+//!                   forward by <bump> ms and a fresh run_jobs_async is polled at most m times.
+//!                   trace = <ticket>:<id>:<kind> of the executed jobs; completion = <result1>/<polls1>/<log length 1>;
+//!                   jobs result = result of the last phase; extra: jpolls of the last phase
 //! Output, one line per case:
 //!   <id> TAB <status> TAB <trace as JSON array> TAB <completion> TAB <jobs result> TAB <extra>
 //!   status = ok | panic:<msg>;  completion = V:<type>:<ToString> | T:<error class>;
@@ -19,8 +25,9 @@
 //!   further run_jobs after the first one returned (0 unless an error left jobs behind)
 //!   extra (never compared across modes): polls of the evaluation future and of the job future, jobs run.
 use boa_engine::context::ContextBuilder;
-use boa_engine::job::{Job, JobExecutor, PromiseJob, SimpleJobExecutor};
-use boa_engine::{Context, JsError, JsResult, JsValue, Script, Source};
+use boa_engine::context::time::FixedClock;
+use boa_engine::job::{GenericJob, Job, JobExecutor, NativeJob, PromiseJob, SimpleJobExecutor, TimeoutJob};
+use boa_engine::{Context, JsError, JsNativeError, JsResult, JsValue, Script, Source};
 use std::cell::{Cell, RefCell};
 use std::collections::VecDeque;
 use std::future::Future;
@@ -137,6 +144,138 @@ fn jobs_result(r: &JsResult<()>, ctx: &mut Context) -> String {
 
 const MAX_POLLS: u64 = 200_000_000;
 
+/// Behaviour table of native jobs (mode `jloop`), the same table coq/C16/LoopCase.v interprets.
+/// Text: sections separated by `;`.  Section 0: the jobs the host enqueues before the first run, each
+/// `<kind>:<delay>:<job id>` (kind 0 promise job, 1 generic job, 2 timeout job with that delay in ms).
+/// Section i+1 = job i: `<adv> <err> <kind>:<delay>:<id> ...` -- when it runs the job logs its id, moves the
+/// clock forward by <adv> ms, enqueues the listed jobs in order, and returns Err iff <err> = 1.
+struct LoopSpec {
+    init: Vec<(u8, u64, usize)>,
+    jobs: Vec<(u64, bool, Vec<(u8, u64, usize)>)>,
+    clock: Rc<FixedClock>,
+    /// executed jobs: (ticket given at enqueue time, job id, kind)
+    log: RefCell<Vec<(usize, usize, u8)>>,
+    /// next ticket = number of enqueue_job calls so far
+    next: Cell<usize>,
+    /// number of promise jobs enqueued so far
+    penq: Cell<usize>,
+}
+
+fn parse_enq(s: &str) -> Option<(u8, u64, usize)> {
+    let mut it = s.split(':');
+    let k = it.next()?.parse().ok()?;
+    let d = it.next()?.parse().ok()?;
+    let c = it.next()?.parse().ok()?;
+    Some((k, d, c))
+}
+
+fn parse_loop_spec(src: &str) -> Option<LoopSpec> {
+    let mut secs = src.split(';');
+    let init = secs.next()?.split_whitespace().map(parse_enq).collect::<Option<Vec<_>>>()?;
+    let mut jobs = Vec::new();
+    for sec in secs {
+        let mut w = sec.split_whitespace();
+        let adv: u64 = w.next()?.parse().ok()?;
+        let err = w.next()? == "1";
+        let new = w.map(parse_enq).collect::<Option<Vec<_>>>()?;
+        jobs.push((adv, err, new));
+    }
+    Some(LoopSpec {
+        init,
+        jobs,
+        clock: Rc::new(FixedClock::from_millis(0)),
+        log: RefCell::new(Vec::new()),
+        next: Cell::new(0),
+        penq: Cell::new(0),
+    })
+}
+
+fn loop_enqueue(spec: &Rc<LoopSpec>, e: (u8, u64, usize), ctx: &mut Context) {
+    let (k, d, c) = e;
+    let sp = spec.clone();
+    let ticket = spec.next.get();
+    spec.next.set(ticket + 1);
+    let kind = k.min(2);
+    let f = move |ctx: &mut Context| -> JsResult<JsValue> { loop_job(&sp, ticket, c, kind, ctx) };
+    match k {
+        0 => {
+            spec.penq.set(spec.penq.get() + 1);
+            ctx.enqueue_job(Job::PromiseJob(PromiseJob::new(f)))
+        }
+        1 => {
+            let realm = ctx.realm().clone();
+            ctx.enqueue_job(Job::GenericJob(GenericJob::new(f, realm)))
+        }
+        _ => ctx.enqueue_job(Job::TimeoutJob(TimeoutJob::new(NativeJob::new(f), d))),
+    }
+}
+
+fn loop_job(spec: &Rc<LoopSpec>, ticket: usize, id: usize, kind: u8, ctx: &mut Context) -> JsResult<JsValue> {
+    spec.log.borrow_mut().push((ticket, id, kind));
+    let Some((adv, err, new)) = spec.jobs.get(id).cloned() else { return Ok(JsValue::undefined()) };
+    spec.clock.forward(adv);
+    for e in new {
+        loop_enqueue(spec, e, ctx);
+    }
+    if err {
+        Err(JsNativeError::typ().with_message("job failed").into())
+    } else {
+        Ok(JsValue::undefined())
+    }
+}
+
+fn run_loop_case(params: &str, src: &str) -> String {
+    let p: Vec<u64> = params.split(':').filter_map(|x| x.parse().ok()).collect();
+    if p.len() != 3 {
+        return "unsupported\t[]\t-\t-\tbad jloop parameters".into();
+    }
+    let Some(spec) = parse_loop_spec(src) else { return "unsupported\t[]\t-\t-\tbad table".into() };
+    let spec = Rc::new(spec);
+    let mut ctx = ContextBuilder::default().clock(spec.clock.clone()).build().expect("context");
+    for e in spec.init.clone() {
+        loop_enqueue(&spec, e, &mut ctx);
+    }
+    let ex = ctx.downcast_job_executor::<SimpleJobExecutor>().expect("simple executor");
+    let phase = |ctx: &mut Context, max: u64| -> (Option<JsResult<()>>, u64) {
+        let cell = RefCell::new(ctx);
+        let fut = ex.clone().run_jobs_async(&cell);
+        drive(fut, max.max(1))
+    };
+    let show = |r: &Option<JsResult<()>>, ctx: &mut Context| match r {
+        None => "J:fuel".to_string(),
+        Some(r) => jobs_result(r, ctx),
+    };
+    let (r1, polls1) = phase(&mut ctx, p[0]);
+    let s1 = show(&r1, &mut ctx);
+    let len1 = spec.log.borrow().len();
+    let (last, polls_last) = if r1.is_none() {
+        spec.clock.forward(p[1]);
+        let (r2, polls2) = phase(&mut ctx, p[2]);
+        (show(&r2, &mut ctx), polls2)
+    } else {
+        (s1.clone(), polls1)
+    };
+    let before = spec.log.borrow().len();
+    let mut after = 0;
+    if last != "J:fuel" {
+        // after Ok every queue is empty, after Err every queue was cleared: a further call runs nothing
+        let _ = phase(&mut ctx, 3);
+        after = spec.log.borrow().len() - before;
+    }
+    let trace: Vec<String> = spec.log.borrow()[..before].iter().map(|(t, i, k)| format!("\"{t}:{i}:{k}\"")).collect();
+    format!(
+        "ok\t{}\t{}/{}/{}\t{};after={}\tjpolls={},penq={}",
+        bh::json_list(&trace),
+        s1,
+        polls1,
+        len1,
+        last,
+        after,
+        polls_last,
+        spec.penq.get()
+    )
+}
+
 fn run_case(mode: &str, src: &str) -> String {
     let mut parts = mode.split('+');
     let main = parts.next().unwrap_or("sync");
@@ -147,6 +286,9 @@ fn run_case(mode: &str, src: &str) -> String {
         }
     }
     let _ = bh::take_trace();
+    if let Some(params) = main.strip_prefix("jloop:") {
+        return run_loop_case(params, src);
+    }
     let fifo = Rc::new(FifoExecutor {
         q: RefCell::new(VecDeque::new()),
         other: Cell::new(0),
